@@ -8,7 +8,11 @@
      uniq_flat st x l := variable x is a handle to cell l, a list of scalars with strong count 1
      noncopy x s      := s is one of  x[i] = n,  x append= n,  x[i] += n,  pop x,  remove x[i]
 
-   General depth (any nesting, any non-slice path, any payload kind): C02_inplace_when_unique, C02_make_mut_cost.
+   General depth (any nesting, any non-slice path, any payload kind): C02_inplace_when_unique, C02_make_mut_cost,
+   C02_consuming_inplace_when_unique (pop / remove by index or key / consume through modify_existing_index;
+     uleaf h cur p := the path p exists below cur and every cell on it AND the cell it leads to has strong count 1;
+     remove by slice is excluded - it allocates the removed slice - and so is a missing key of a dictionary with a default,
+     where the inserted copy of the default is shared with the default).
    Flat fragment only (a list of scalars, paths of depth <= 1; suffix _flat): the other three.  The same statements
    for nested rows / dicts / op-assign through a path are NOT proved (the Rc-graph correspondence and the
    allocation measurement cover them); see notes/C02.md. *)
@@ -33,6 +37,16 @@ Theorem C02_inplace_when_unique : forall every p, noslice p = true -> forall new
   same_cost h h' /\ (p <> [] -> same_root cur cur').
 Proof. exact m_set_inplace. Qed.
 Print Assumptions C02_inplace_when_unique.
+
+(* pop x[p], remove x[p][i] (index or key), consume x[p] (modify_existing_index + try_pop / try_remove / mem::take) through a
+   path whose cells, including the addressed collection itself, all have strong count 1: nothing is copied, no location is
+   created, and x still holds the same handle *)
+Theorem C02_consuming_inplace_when_unique : forall m, is_inplace_lop m = true -> forall h cur t G h' cur' r,
+  Inv h (handles cur ++ G) -> repr h cur t -> uleaf h cur (lop_path m) ->
+  m_lop m h cur = (h', cur', r) ->
+  same_cost h h' /\ (lop_path m <> [] -> same_root cur cur').
+Proof. exact m_lop_inplace. Qed.
+Print Assumptions C02_consuming_inplace_when_unique.
 
 (* the O(n + k) clause: after `x = [n1, .., nm]`, k statements of the non-copying forms copy 0 elements, create no
    location, and x stays unaliased at every statement boundary *)
@@ -104,3 +118,22 @@ Example C02_nonvacuous :
                                                             Simple (SAssign 2 [] (ERead 1 []))] ++ muts ++ muts))) = 4 /\
   Forall (noncopy 1) muts.
 Proof. repeat split; try reflexivity. repeat constructor. Qed.
+
+(* non-vacuity of the general-depth theorem: x = [[1, 2], {5: [3]}]; y = x[1][5].  The path x[0] is unshared: `pop x[0]`
+   copies nothing, creates no cell and keeps x's handle.  x[1][5] is shared with y (uleaf fails): `pop x[1][5]` copies
+   its one element into a new cell. *)
+Example C02_nonvacuous_nested :
+  let st := final_cow (init_state 3)
+              [Simple (SAssign 1 [] (ELit (VList [VList [VInt 1; VInt 2]; VSeq KDict [(KI 5%Z, VList [VInt 3])] None])));
+               Simple (SAssign 2 [] (ERead 1 [PI 1; PI 5]))] in
+  exists cur, nth_error (roots st) 1 = Some cur /\
+    uleaf (mheap st) cur [PI 0] /\ ~ uleaf (mheap st) cur [PI 1; PI 5] /\
+    (let '(h', cur', r) := m_lop (LPop [PI 0]) (mheap st) cur in
+     same_cost (mheap st) h' /\ cur' = cur /\ r = Some (HInt 2)) /\
+    (let '(h', cur', r) := m_lop (LPop [PI 1; PI 5]) (mheap st) cur in
+     copied h' = copied (mheap st) + 1 /\ length (cells h') = S (length (cells (mheap st)))).
+Proof.
+  eexists. split; [reflexivity|]. split; [vm_compute; repeat split; reflexivity|]. split.
+  - intro H. vm_compute in H. destruct H as [_ [_ H]]. discriminate.
+  - split; vm_compute; repeat split; reflexivity.
+Qed.
